@@ -39,8 +39,8 @@ package value
 //@ func Equal
 //@   props C19 C03 C12
 //@   requires AllTVWf()
-//@   invariant 0: [prefix-equal] forall j int :: 0 <= j && j < $i ==> valueEq(ae[j], be[j])
-//@   ensures [decides-valueEq C19] res0 <==> valueEq(a, b)
+//@   invariant 0: [prefix-equal C19 C03 C12] forall j int :: 0 <= j && j < $i ==> valueEq(ae[j], be[j])
+//@   ensures [decides-valueEq C19 C03] res0 <==> valueEq(a, b)
 
 // utf8.ValidString is a predicate of the string.
 //@ spec validUTF8(string) bool
